@@ -2,7 +2,7 @@
    "returning false from the visitor stops the walk").  Model/Walk.v over Model/Page.v.
    This file contains only statements, each closed by `exact <lemma>`, and Print Assumptions. *)
 From Coq Require Import NArith List Bool.
-From MiV Require Import Gen.Consts Model.Arith Model.Page Model.Walk Proofs.Base Proofs.PageProofs Proofs.WalkProofs.
+From MiV Require Import Gen.Consts Model.Arith Model.Page Model.Walk Model.Heap Proofs.Base Proofs.PageProofs Proofs.WalkProofs Proofs.HeapBase Proofs.WalkHeap.
 Import ListNotations.
 Local Open Scope N_scope.
 
@@ -90,6 +90,20 @@ Theorem C12_completed_walk_collects : forall (S : Type) (visitor : S -> vcall ->
   Forall (fun x => local_free (snd x) = [] /\ thread_free (snd x) = []) (walk_pages_after S visitor true pages s).
 Proof. exact walk_pages_after_complete. Qed.
 Print Assumptions C12_completed_walk_collects.
+
+(* composition with the queue traversal of the heap model (Model/Heap.v, C10_visit_all_queues_once): in every state
+   satisfying the heap invariant, whatever the pages contain (content), an accepting visitor is called with the area record and
+   exactly the live blocks of every page, and the pages so reported are exactly the pages the heap owns, each once *)
+Theorem C12_heap_walk_every_page_once : forall (s : Heap.state) (h : hid) hp (content : pid -> Page.page)
+  (S : Type) (visitor : S -> vcall -> S * bool) (st : S),
+  heap_Inv s -> get_heap s h = Some hp -> heap_visit_pages s h <> [] ->
+  (forall p, In p (heap_visit_pages s h) -> walkable (content p)) ->
+  (forall s0 c, snd (visitor s0 c) = true) ->
+  (exists st', heap_visit_blocks S visitor true (walk_input s h content) st = (st', live_calls (walk_input s h content), true)) /\
+  NoDup (map fst (walk_input s h content)) /\
+  (forall p, In p (map fst (walk_input s h content)) <-> exists pi, get_page s p = Some pi /\ pheap pi = Some h).
+Proof. exact heap_walk_every_page_once. Qed.
+Print Assumptions C12_heap_walk_every_page_once.
 
 (* non-vacuity: two pages (48-byte blocks with holes on all three lists; a full 2-block page), stop at the 4th call *)
 Definition ex_p1 : page := mkPage 48 85 10 6 [9; 8] [1; 3] [5] false false false 0.
